@@ -217,7 +217,8 @@ def prop_final(case):
     if incon is None and not fails and len(Pk) >= 2:
         try:
             kmax = max(Pk)
-            sk_dd = {k: 1.0 - min(0.9, case['rho'] * 2.0 * (k + 1) / (kmax + 1)) for k in Pk}       # hubs preferentially infected
+            base = case['rho'] if case['rho'] > 0 else 0.1
+            sk_dd = {k: 1.0 - min(0.9, base * 2.0 * (k + 1) / (kmax + 1)) for k in Pk}       # hubs preferentially infected
             kave = sum(k * Pk[k] for k in Pk)
 
             def ph_dd(x):
